@@ -250,7 +250,8 @@ __CPROVER_ensures(__CPROVER_return_value == HTP_OK ==> (__CPROVER_is_fresh(h->na
 void *contract_c11_htp_table_get(const htp_table_t *table, const bstr *key)
 __CPROVER_requires(key != NULL && (const void *) key == g_c11_name)
 __CPROVER_assigns()
-__CPROVER_ensures((g_c11_have_ex != 0 ==> __CPROVER_pointer_equals(__CPROVER_return_value, g_c11_ex)) && (g_c11_have_ex == 0 ==> __CPROVER_return_value == NULL))
+__CPROVER_ensures(g_c11_have_ex != 0 ==> __CPROVER_pointer_equals(__CPROVER_return_value, g_c11_ex))
+__CPROVER_ensures(g_c11_have_ex == 0 ==> __CPROVER_return_value == NULL)
 ;
 htp_status_t contract_c11_htp_table_add(htp_table_t *table, const bstr *key, const void *element)
 __CPROVER_requires(g_c11_add_n == 0)
@@ -269,7 +270,8 @@ void contract_c11log_bstr_free(bstr *b)
 __CPROVER_requires(b != NULL && ((void *) b == g_c11_name || (void *) b == g_c11_value))
 __CPROVER_requires(((void *) b == g_c11_name ==> g_c11_free_name == 0) && ((void *) b == g_c11_value ==> g_c11_free_value == 0))
 __CPROVER_assigns(g_c11_free_name, g_c11_free_value)
-__CPROVER_ensures(g_c11_free_name == ((void *) b == g_c11_name ? 1 : O(g_c11_free_name)) && g_c11_free_value == ((void *) b == g_c11_value ? 1 : O(g_c11_free_value)))
+__CPROVER_ensures(((void *) b == g_c11_name ==> g_c11_free_name == 1) && ((void *) b != g_c11_name ==> g_c11_free_name == O(g_c11_free_name)))
+__CPROVER_ensures(((void *) b == g_c11_value ==> g_c11_free_value == 1) && ((void *) b != g_c11_value ==> g_c11_free_value == O(g_c11_free_value)))
 ;
 /* growing the stored value: NULL (allocation failure / refusal) or a string of exactly the requested capacity with the old length */
 bstr *contract_c11_bstr_expand(bstr *b, size_t newsize)
@@ -279,18 +281,18 @@ __CPROVER_ensures(g_c11_exp_n == 1 && g_c11_exp_req == newsize)
 __CPROVER_ensures(__CPROVER_return_value == NULL || (__CPROVER_is_fresh(__CPROVER_return_value, sizeof(bstr) + 2 * C11_VALCAP + 2) &&
     __CPROVER_return_value->len == O(b->len) && __CPROVER_return_value->size == newsize && __CPROVER_return_value->realptr == NULL))
 ;
-#define C11_ROOM(b, n) (O((b)->len) + (n) <= (b)->size ? (n) : ((b)->size > O((b)->len) ? (b)->size - O((b)->len) : 0))
+/* the _noex appenders silently truncate when the capacity is short: the stubs REQUIRE the room (asserted at the call site), so the caller provably asked for enough */
 bstr *contract_c11_bstr_add_mem_noex(bstr *destination, const void *data, size_t len)
-__CPROVER_requires(__CPROVER_rw_ok(destination, sizeof(bstr)) && len == 2 && __CPROVER_r_ok(data, len) && g_c11_addmem_n == 0 && g_c11_addb_n == 0)
+__CPROVER_requires(__CPROVER_rw_ok(destination, sizeof(bstr)) && len == 2 && __CPROVER_r_ok(data, len) && g_c11_addmem_n == 0 && g_c11_addb_n == 0 && destination->len + len <= destination->size)
 __CPROVER_assigns(destination->len, g_c11_addmem_n, g_c11_sep0, g_c11_sep1)
 __CPROVER_ensures(g_c11_addmem_n == 1 && g_c11_sep0 == ((const unsigned char *) data)[0] && g_c11_sep1 == ((const unsigned char *) data)[1])
-__CPROVER_ensures(__CPROVER_return_value == destination && destination->len == O(destination->len) + C11_ROOM(destination, len))
+__CPROVER_ensures(__CPROVER_return_value == destination && destination->len == O(destination->len) + len)
 ;
 bstr *contract_c11_bstr_add_noex(bstr *destination, const bstr *source)
-__CPROVER_requires(__CPROVER_rw_ok(destination, sizeof(bstr)) && __CPROVER_r_ok(source, sizeof(bstr)) && g_c11_addmem_n == 1 && g_c11_addb_n == 0)
+__CPROVER_requires(__CPROVER_rw_ok(destination, sizeof(bstr)) && __CPROVER_r_ok(source, sizeof(bstr)) && g_c11_addmem_n == 1 && g_c11_addb_n == 0 && destination->len + source->len <= destination->size)
 __CPROVER_assigns(destination->len, g_c11_addb_n, g_c11_addb_src)
 __CPROVER_ensures(g_c11_addb_n == 1 && g_c11_addb_src == (const void *) source)
-__CPROVER_ensures(__CPROVER_return_value == destination && destination->len == O(destination->len) + C11_ROOM(destination, source->len))
+__CPROVER_ensures(__CPROVER_return_value == destination && destination->len == O(destination->len) + source->len)
 ;
 
 #define P_PARSED   (g_c11_parse_rc == HTP_OK)
@@ -304,6 +306,9 @@ __CPROVER_requires(__CPROVER_is_fresh(connp, sizeof(*connp)) && __CPROVER_is_fre
 __CPROVER_requires(g_c11_ex != NULL && C11_GHOST_HDR(g_c11_ex) && g_c11_newlen <= C11_VALCAP && (g_c11_have_ex == 0 || g_c11_have_ex == 1))
 __CPROVER_requires((g_c11_parse_rc == HTP_OK || g_c11_parse_rc == HTP_ERROR) && (g_c11_add_rc == HTP_OK || g_c11_add_rc == HTP_ERROR))
 __CPROVER_requires(g_c11_free_name == 0 && g_c11_free_value == 0 && g_c11_add_n == 0 && g_c11_exp_n == 0 && g_c11_addmem_n == 0 && g_c11_addb_n == 0 && g_c11_h == NULL)
+#ifdef C11_DBG_REQ2
+__CPROVER_requires(C11_DBG_REQ2)
+#endif
 /* C10: the repetition counter is within its cap on entry (it is 0 in a new transaction and only this function moves it) */
 __CPROVER_requires(connp->in_tx->req_header_repetitions <= HTP_MAX_HEADERS_REPETITIONS)
 __CPROVER_assigns(g_c11_name, g_c11_value, g_c11_h, g_c11_free_name, g_c11_free_value, g_c11_add_n, g_c11_add_key, g_c11_add_el, g_c11_exp_n, g_c11_exp_req,
